@@ -255,6 +255,7 @@ func ParseTokenParam(buf []byte, offs int, param *PTokParam,
 				param.state = paramName
 				param.Name.Set(i, i)
 				param.All.Set(i, i)
+				param.Val.Reset() // no value so far (param might be re-used)
 			}
 		case paramName:
 			switch c {
